@@ -102,6 +102,22 @@ Proof.
   apply (inv_wf _ _ _ (reach_inv _ _ _ _ _ Hr)).
 Qed.
 
+(** A load-state whose file stops parsing after [n] records were scattered:
+    the client is told failure, the task is cancelled — no task remains for that
+    request and none of its request ids stays in flight, so whatever the workers
+    answer later reaches nobody ([one_verdict] bounds the finals of every
+    request, this one included). *)
+Theorem cancel_leaves_no_trace : forall nw tm es h os c n h' os',
+    run (init nw tm) es = (h, os) -> client_request h c (VLoad n true) = (h', os') ->
+    (forall t, In t (tasks h') -> t_rq t <> next_rq h) /\
+    (forall r tid, In (r, tid) (in_flight h') -> tid <> next_task h).
+Proof. exact cancel_leaves_no_trace_lemma. Qed.
+
+Example cancel_leaves_no_trace_nonvacuous :
+  finals_of 0 (snd (run (init 2 1000) [EClient 0 (VLoad 2 true); EResp 0 (Some (0,0,1)) SOk; EResp 1 (Some (1,0,1)) SOk;
+                                        EResp 0 (Some (0,0,2)) SOk; EResp 1 (Some (1,0,2)) SOk; ETick 5000])) = [SFailure].
+Proof. vm_compute. reflexivity. Qed.
+
 (** The halves the code does not give (open findings, kept visible). *)
 
 (** query / status / metrics tasks answer OK although a failure was counted *)
@@ -131,7 +147,7 @@ Example one_verdict_nonvacuous :
 Proof. vm_compute. reflexivity. Qed.
 
 Example no_orphans_after_close_nonvacuous :
-  finals_of 0 (snd (run (init 2 1000) [EClient 0 (VLoad 2); EResp 0 (Some (0,0,1)) SOk; EResp 0 (Some (0,0,2)) SOk;
+  finals_of 0 (snd (run (init 2 1000) [EClient 0 (VLoad 2 false); EResp 0 (Some (0,0,1)) SOk; EResp 0 (Some (0,0,2)) SOk;
                                         EWorkerClosed 1])) = [SFailure].
 Proof. vm_compute. reflexivity. Qed.
 
@@ -143,7 +159,7 @@ Example no_hang_nonvacuous :
 Proof. vm_compute. eexists. split; [left; reflexivity|]. split; reflexivity. Qed.
 
 Example ok_is_sound_nonvacuous :
-  let '(h, os) := run (init 2 1000) [EClient 0 (VLoad 2); EResp 0 (Some (0,0,1)) SOk; EResp 1 (Some (1,0,1)) SOk;
+  let '(h, os) := run (init 2 1000) [EClient 0 (VLoad 2 false); EResp 0 (Some (0,0,1)) SOk; EResp 1 (Some (1,0,1)) SOk;
                                       EResp 1 (Some (1,0,2)) SOk] in
   In (OFinal 0 0 SOk) (snd (step h (EResp 0 (Some (0,0,2)) SOk))) /\ length (filter (fun o => match o with OSend _ _ _ => true | _ => false end) os) = 4.
 Proof. vm_compute. split; [left; reflexivity|reflexivity]. Qed.
